@@ -97,6 +97,7 @@ def handle (toks : List String) (impl : String) : Verdict :=
     | some raw =>
       let s := Subsystem.fromName raw
       let oracle :=
+        if impl == "HANG" then "fail:the-event-for-the-reported-change-was-never-delivered" else
         match impl.splitOn "," with
         | [idn, "eq:1", "hash:1"] =>
           match idn.splitOn ":" with
